@@ -260,6 +260,54 @@ fn hostile_history(
                 Err(p) => {
                     out.counters.inc(&format!("c07.overrun-panicked.kind{kind}.{}", classify_panic(&p)));
                     out.nontrivial.insert(mix(&[seed, kind as u64]));
+                    // "Calls within the limits complete" — also in a sequence that contains a limit violation: right after
+                    // the caught panic, the read-only calls on every present vertex (arguments within every limit, no
+                    // precondition that depends on the group bookkeeping) must complete. Whatever the interrupted call
+                    // left behind (a half-made edge, a tag) must not make them panic.
+                    let g = &s.g;
+                    let keys = guarded(|| g.keys());
+                    let Ok(keys) = keys else {
+                        return Some(format!("keys() panicked right after the caught panic of the limit overrun {desc} (N={n} cap={cap})"));
+                    };
+                    let mut bad: Option<String> = None;
+                    let whole: [(&str, Box<dyn Fn() -> usize + '_>); 5] = [
+                        ("len()", Box::new(|| g.len())),
+                        ("Debug", Box::new(|| g.debug().len())),
+                        ("Display", Box::new(|| g.display().len())),
+                        ("to_xml()", Box::new(|| g.to_xml().map_or(0, |t| t.len()))),
+                        ("to_dot()", Box::new(|| g.to_dot().len())),
+                    ];
+                    for (name, f) in whole {
+                        out.calls += 1;
+                        if let Err(p2) = guarded(f) {
+                            bad = Some(format!("{name}: {p2}"));
+                            break;
+                        }
+                    }
+                    for v in keys.iter().take(40) {
+                        if bad.is_some() {
+                            break;
+                        }
+                        let v = *v;
+                        let per: [(&str, Box<dyn Fn() -> usize + '_>); 3] = [
+                            ("kids", Box::new(move || g.kids(v).len())),
+                            ("v_print", Box::new(move || g.v_print(v).map_or(0, |t| t.len()))),
+                            ("inspect", Box::new(move || g.inspect(v).map_or(0, |t| t.len()))),
+                        ];
+                        for (name, f) in per {
+                            out.calls += 1;
+                            if let Err(p2) = guarded(f) {
+                                bad = Some(format!("{name}({v}): {p2}"));
+                                break;
+                            }
+                        }
+                    }
+                    out.counters.inc("c07.read-only-windows-after-a-caught-overrun");
+                    if let Some(b) = bad {
+                        return Some(format!(
+                            "after the caught panic of the limit overrun {desc}, a read-only call with arguments within the limits panicked: {b} (N={n} cap={cap})"
+                        ));
+                    }
                 }
                 Ok(()) => {
                     return Some(format!("limit overrun {desc} returned normally instead of panicking (N={n} cap={cap})"));
